@@ -2,7 +2,7 @@
 import json
 import os
 
-from harness import tlcrun
+from harness import checklib, tlcrun
 from harness.checks import common
 from harness.drivers import dyn
 
@@ -37,6 +37,21 @@ def dyn_task(shard, tid0, kind, seeds, nvars, nheld, tmpdir, kmax):
                         runs=len(tr['events']) - 1))
     return dict(shard=shard, traces=traces, events=events, fingerprints=fps,
                 samples=samples, moved=moved[0])
+
+
+def autoref_dyn_task(shard, first_tid, ntraces, seed, steps):
+    from harness.drivers import autoref_hist
+    events = 0
+    fps = set()
+    with open(shard, 'w') as f:
+        for i in range(ntraces):
+            tid = first_tid + i
+            tr = autoref_hist.autoref_history(tid, seed * 6151 + tid, [3, 4, 5][tid % 3], steps, dyn=True)
+            f.write(tr.dumps() + '\n')
+            events += len(tr.events)
+            fps |= checklib.event_fingerprints(tr.events)
+            tr.release_all()
+    return dict(shard=shard, traces=ntraces, events=events, fingerprints=fps, samples=[])
 
 
 def run(chk):
@@ -105,7 +120,13 @@ def run(chk):
                                  steps=80 if q else 200,
                                  nvars_choices=[4, 5, 6], profile='dyn',
                                  tag='nat')
-    chk.validate('TraceBDD', 'TraceBDD.cfg', sh + sh_graph)
+    # reordering must stay invisible LATER too: dd.autoref histories with natural triggering,
+    # late declarations, and the order views read through the wrapper after every call
+    at = [dict(shard=chk.shard('au_c09_%d' % i), first_tid=9500000 + i * 100, ntraces=3 if q else 40,
+               seed=chk.seed, steps=70 if q else 120) for i in range(8)]
+    ash, _ = chk.generate(autoref_dyn_task, at)
+    chk.own_clauses = tuple(chk.own_clauses) + ('decl.views',)
+    chk.validate('TraceBDD', 'TraceBDD.cfg', sh + sh_graph + ash)
 
     def wrong_result(tr):
         for i, ev in enumerate(tr['events']):
